@@ -22,27 +22,29 @@ theorem frame_roundtrip (typ : Nat) (d : Bytes) (conts : List Bytes) (rest : Byt
 
 /-! ## characters -/
 
-/-- one segment (all the characters still owed) is read exactly under either packing — 16-bit, or 8-bit
-    when every unit is < 0x100 — and the reader stops on the byte after it -/
+/-- one segment (all the characters still owed) is read exactly — its code units — under either packing
+    (16-bit, or 8-bit when every unit is < 0x100) and the reader stops on the byte after it -/
 theorem dbcs_segment (wide : Bool) (us : List Nat) (tail : Bytes) (cont : List Bytes)
     (hlt : ∀ u ∈ us, u < 65536) (hpack : wide = false → ∀ u ∈ us, u < 256) :
-    readDbcs us.length wide (encUnits wide us ++ tail) cont = .ok (decodeUtf16 us, ⟨tail, cont⟩) :=
+    readDbcs us.length wide (encUnits wide us ++ tail) cont = .ok (us, ⟨tail, cont⟩) :=
   readDbcs_last wide us tail cont hlt hpack
 
 /-- the split-read invariant ("`data` = unread rest of the current fragment, `cont` = fragments still queued,
-    `n` = characters still owed"): a first segment `s0` and then one CONTINUE record per further non-empty
-    segment, each with its own packing announced by a fresh flag byte, read back as the segments' text in
-    order; the reader stops exactly after the last character (state `lay rest`). -/
+    `n` = characters still owed"): a first segment `s0` and then one CONTINUE record per further segment, each
+    with its own packing announced by a fresh flag byte (any of them but the last may hold the flag byte
+    alone), yield the code units of all segments in order — wherever the breaks fall, between the halves of a
+    surrogate pair included; the reader stops exactly after the last character (state `lay rest`). -/
 theorem dbcs_split_invariant (segs : List (List Nat × Bool)) (s0 : List Nat) (w0 : Bool) (n : Nat) (rest : List Tok)
     (hn : n = s0.length + (segs.map (·.1.length)).sum)
     (h0 : ∀ u ∈ s0, u < 65536) (hp0 : packOk (s0, w0))
-    (hall : ∀ p ∈ segs, (∀ u ∈ p.1, u < 65536) ∧ packOk p ∧ p.1 ≠ []) :
+    (hall : ∀ p ∈ segs, (∀ u ∈ p.1, u < 65536) ∧ packOk p) (hlast : lastOk segs) :
     readDbcs n w0 (lay (.b (encUnits w0 s0) :: (contToks segs ++ rest))).1
         (lay (.b (encUnits w0 s0) :: (contToks segs ++ rest))).2
-      = .ok (decodeUtf16 s0 ++ (segs.map (decodeUtf16 ·.1)).flatten, ⟨(lay rest).1, (lay rest).2⟩) :=
-  readDbcs_segs segs s0 w0 n rest hn h0 hp0 hall
+      = .ok (s0 ++ (segs.map (·.1)).flatten, ⟨(lay rest).1, (lay rest).2⟩) :=
+  readDbcs_segs segs s0 w0 n rest hn h0 hp0 hall hlast
 
-/-- decoding segment by segment gives the text of the whole string as long as no break separates a high
+/-- (a fact about UTF-16 decoding, no longer needed by the reader since the units are decoded once:)
+    decoding segment by segment gives the text of the whole string as long as no break separates a high
     surrogate from its low surrogate (the first segment may be empty, later ones are not) -/
 theorem segments_decode_as_whole (s0 : List Nat) (segs : List (List Nat))
     (hp : pairsKept (s0 :: segs)) (hne : ∀ s ∈ segs, s ≠ []) :
@@ -330,7 +332,12 @@ example (env0 : BiffCells.Env) :
     rcases hp with rfl | rfl <;> (unfold BiffWorkbook.inertRec; decide)
   · rw [sheet_offsets_exist, sheet_offsets_exist]
 
-/-- a break inside the surrogate pair is not legal -/
-example : ¬ Legal 1 [{ units := [0xD83D, 0xDE00] }] [{ wide0 := true, cuts := [(1, true)] }] := by decide
+/-- a break between the halves of a surrogate pair, and a CONTINUE record holding its flag byte alone, are
+    legal and read back as the one character -/
+example : Legal 1 [{ units := [0xD83D, 0xDE00] }] [{ wide0 := true, cuts := [(1, true), (0, true)] }] := by decide
+example : sstFromStream 1 (frameSst (encodeSst 1 [{ units := [0xD83D, 0xDE00] }] [{ wide0 := true, cuts := [(1, true), (0, true)] }]))
+    = .ok [[0x1F600]] := sst_roundtrip 1 _ _ (by decide) 0
+/-- a CONTINUE record opened after the last character is not legal -/
+example : ¬ Legal 1 [{ units := [0x61] }] [{ wide0 := true, cuts := [(1, true)] }] := by decide
 
 end Biff
